@@ -1,0 +1,10 @@
+//go:build verif
+
+// Contracts for package latency, checked by /verif/gvc (comment-only file,
+// compiled only under the build tag "verif").
+package latency
+
+//@ func (*Latency).Compute
+//@   props C15
+//@   trusted latency internals are behind Latency.mu; not yet under contract
+//@   requires l != nil
